@@ -93,9 +93,17 @@ def r3(chk, ctx, p, se):
     txt = [norm(s) for s in ast.walk(gf.node) if isinstance(s, ast.stmt)]
     ok = "has_terminated = terminated or parent_terminated" in txt and "branch_results['terminated'] = iterator_range" in txt and "results[index] = '__TERMINATED__'" in txt
     chk.ob("C06.R3", "gate: terminated = own or parent fan-out terminated; slot marked", ok, "", key="%s | termination marking" % gf.qname, where=gf.where(), message="")
+    want_guards = [("has_terminated", "body"), ("'Branch' in context['State']", "body")]
+    mk = [s for s in body_nodes(gf) if isinstance(s, ast.Assign) and norm(s) == "results[index] = '__TERMINATED__'"]
+    gi = [(norm(i.test), arm) for i, arm in enclosing_ifs(se, mk[0], gf.node)] if mk else None
+    chk.ob("C06.R3", "the dropped event's slot is marked terminated whatever it held", gi == want_guards, str(gi),
+           key="%s | slot marking is conditional: %s" % (gf.qname, gi), where=gf.where(mk[0]) if mk else gf.where(),
+           message="a slot that still holds a pending marker ('__CAUGHT__') stays pending forever: the join state is never released and the backstop ends the execution a second time")
     cp = [c for c in body_nodes(gf) if isinstance(c, ast.Call) and callname(c) == "self.check_pending_results"]
-    ok = len(cp) == 1 and any(norm(i.test) == "has_terminated" and arm == "body" for i, arm in enclosing_ifs(se, cp[0], gf.node))
-    chk.ob("C06.R3", "gate tidies pending results after dropping an event", ok, "", key="%s | tidy-up call" % gf.qname, where=gf.where(), message="")
+    gi = [(norm(i.test), arm) for i, arm in enclosing_ifs(se, cp[0], gf.node)] if len(cp) == 1 else None
+    chk.ob("C06.R3", "gate tidies pending results after dropping any event of a terminated branch", gi == want_guards, str(gi),
+           key="%s | tidy-up call guards %s" % (gf.qname, gi), where=gf.where(),
+           message="when the dropped event is a nested Parallel/Map state the join state would linger until the backstop ends the execution again")
 
 
 def r4(chk, ctx, p, se):
@@ -116,6 +124,15 @@ def r4(chk, ctx, p, se):
         chk.ob("C06.R4", "slot scan: pending = None or '__CAUGHT__', only when something has terminated", ok, str(gi), key="%s | slot scan guards %s" % (cp.qname, gi), where=cp.where(c), message="")
         eid = [norm(x.value) for x in name_defs(cp, "event_id") if isinstance(x, ast.Assign)]
         chk.ob("C06.R4", "event id of slot i is ids[i]", "event_ids[i]" in eid, str(eid), key="%s | event id source" % cp.qname, where=cp.where(), message="")
+    sd = sorted(norm(x.value) for x in name_defs(cp, "start") if isinstance(x, ast.Assign))
+    edf = sorted(norm(x.value) for x in name_defs(cp, "end") if isinstance(x, ast.Assign))
+    ok = sd == ["0", "int(terminated_range[0])"] and edf == ["int(terminated_range[1])", "len(result)"]
+    chk.ob("C06.R4", "a fan-out without its own mark is scanned over its whole range once anything has terminated", ok, "%s / %s" % (sd, edf),
+           key="%s | scan range definitions %s / %s" % (cp.qname, sd, edf), where=cp.where(),
+           message="a failure in an outer fan-out must cancel the tasks of nested fan-outs too")
+    loops = [l for l in body_nodes(cp) if isinstance(l, ast.For) and norm(l.iter) == "all_branch_results.values()"]
+    skips = [x for l in loops for x in ast.walk(l) if isinstance(x, ast.Continue)]
+    chk.ob("C06.R4", "no fan-out of the execution is skipped by the scan", not skips, "", key="%s | scan skips fan-outs (continue)" % cp.qname, where=cp.where(skips[0]) if skips else cp.where(), message="")
     rel = [c for c in body_nodes(cp) if isinstance(c, ast.Call) and callname(c) == "self.acknowledge_event_list"]
     ok = len(rel) == 1 and norm(rel[0].args[0]) == "event_ids"
     chk.ob("C06.R4", "held events of every fan-out are released", ok, "", key="%s | release of held events" % cp.qname, where=cp.where(), message="nothing may stay unacknowledged")
